@@ -637,6 +637,23 @@ def _flatten_concat(t):
     return [t]
 
 
+LAZY_NTH = False
+
+
+class lazy_nth:
+    """context manager: inside it, element accesses at symbolic offsets of concatenations are left to the back end
+    instead of being located with solver queries during VC generation (a pure performance choice)"""
+
+    def __enter__(self):
+        global LAZY_NTH
+        self.prev = LAZY_NTH
+        LAZY_NTH = True
+
+    def __exit__(self, *a):
+        global LAZY_NTH
+        LAZY_NTH = self.prev
+
+
 def _nth_concat(ss, i):
     parts = _flatten_concat(ss.t)
     off = 0
@@ -660,6 +677,10 @@ def _nth_concat(ss, i):
                 return nth(P, rel)
             off = off + ln
             continue
+        if LAZY_NTH and is_sym(rel):
+            # the contract asked not to spend solver queries on locating symbolic offsets inside concatenations:
+            # the access stays  nth(concat, i)  and is resolved by the back end
+            return None
         if last or known(rel < ln, 60):
             if n == 0 or known(rel >= 0, 60):
                 if z3.is_app_of(part, z3.Z3_OP_SEQ_UNIT):
